@@ -34,3 +34,12 @@ Theorem C12_reachable_single_template_leftmost_longest :
     rsearch chk (run b ops) p = Some (i, ps) -> LL chk (exp_route e) p (map snd ps).
 Proof. exact reach_single_template_greedy. Qed.
 Print Assumptions C12_reachable_single_template_leftmost_longest.
+
+(* ---- the eight parameter searches of src/node/search.rs as sequences of recognised statements, REGENERATED on this run
+        (Gen/Loops.v): each has exactly the statements, in the order, of one of the loop shapes of Model/SearchC.v (grow in its
+        three modes, dyn_segment), over the child list of its kind, with the constraint check exactly in the constrained ones,
+        and no further continue / break / return ---- *)
+From WF Require Import Gen.Loops Proofs.LoopsP.
+Theorem C12_search_loops_have_the_model_shapes : loops_eqb gen_search_loops expected_loops = true.
+Proof. exact search_loops_have_the_model_shapes. Qed.
+Print Assumptions C12_search_loops_have_the_model_shapes.
